@@ -325,6 +325,91 @@ fn worker(batch: &str, o: &Opts, out: &mut dyn FnMut(String)) {
                 }
             }
         }
+        "triples" => {
+            // triples:<mc>  every (transfer, primaries) with this matrix code x layouts / ranges / depths: the encode and the
+            // composite encode on a small special-value image.  Whether a triple is supported is not this property's
+            // business (a declared error is fine), but NO combination of configuration fields may panic.
+            let m: u8 = parts[1].parse().unwrap();
+            let mut px: Vec<[f32; 3]> = cube.iter().step_by(293).take(48).copied().collect();
+            px.extend(unit_cube(&mut rng, 1).into_iter().take(16));
+            let (w, h) = (8usize, px.len() / 8);
+            let px = &px[..w * h];
+            const VARIANTS: [(bool, u8, u8, u8, u8); 4] = [(false, 8, 8, 1, 1), (true, 10, 16, 0, 0), (false, 12, 16, 1, 0), (true, 8, 8, 0, 0)];
+            for &t in crate::util::TC_ALL.iter().filter(|&&x| x != 2) {
+                for &p in crate::util::CP_ALL.iter().filter(|&&x| x != 2) {
+                    for (vi, &(full, n, st, sx, sy)) in VARIANTS.iter().enumerate() {
+                        if !o.thorough && (usize::from(t) + usize::from(p) + usize::from(m)) % 2 != vi % 2 {
+                            continue;
+                        }
+                        let c = Cfg { mc: m, tc: t, cp: p, full, n, ssx: sx, ssy: sy };
+                        let mut s = format!("\"ev\":\"total\",\"stage\":\"enc\",\"cfg\":{},\"st\":{st},\"input\":\"cube\",\"npx\":{},\"w\":{w},\"h\":{h},\"divisible\":1,", c.json(), px.len());
+                        run_guarded(&mut s, |b| if st == 8 { enc::<u8>(px, w, h, &c, b) } else { enc::<u16>(px, w, h, &c, b) });
+                        out(s);
+                        let mut s = format!("\"ev\":\"total\",\"stage\":\"LinToYuv\",\"cfg\":{},\"st\":{st},\"input\":\"cube\",\"npx\":{},\"w\":{w},\"h\":{h},", c.json(), px.len());
+                        run_guarded(&mut s, |b| {
+                            macro_rules! go {
+                                ($t:ty) => {{
+                                    let y = Yuv::<$t>::try_from((LinearRgb::new(px.to_vec(), w, h).map_err(|_| "ctor".to_string())?, c.yuv_config())).map_err(|e| crate::frames::err_name_conv(e).to_string())?;
+                                    let (mx, rw) = yuv_proj(&y);
+                                    let _ = write!(b, "\"maxcode\":{mx},\"rewrap\":\"{rw}\",\"wo\":{},\"ho\":{},", y.width(), y.height());
+                                    let x = Xyb::try_from(&y).map_err(|e| format!("back:{}", crate::frames::err_name_conv(e)))?;
+                                    let _ = write!(b, "\"back_len\":{},", x.data().len());
+                                    Ok(())
+                                }};
+                            }
+                            if st == 8 {
+                                go!(u8)
+                            } else {
+                                go!(u16)
+                            }
+                        });
+                        out(s);
+                    }
+                }
+            }
+        }
+        "unspecsz" => {
+            // Unspecified metadata is a supported configuration (it is resolved from the picture size): the composite encode
+            // and the decode for every height / width in bands around the thresholds of the size heuristic and around
+            // the common picture sizes, every subset of the three fields Unspecified, both storage types
+            let mut sizes: Vec<(usize, usize)> = Vec::new();
+            for h in (464..=496).chain(560..=592).chain(712..=728).chain(1072..=1096).chain(2152..=2168) {
+                sizes.push((2, h));
+            }
+            for w in (1264..=1296).chain(1912..=1928).chain(3832..=3848).chain(712..=728) {
+                sizes.push((w, 2));
+            }
+            for (i, &(w, h)) in sizes.iter().enumerate() {
+                let px = unit_cube(&mut rng, w * h);
+                let px = &px[..w * h];
+                for sub in 1u8..8 {
+                    if !o.thorough && (i + usize::from(sub)) % 3 != 0 {
+                        continue;
+                    }
+                    let st = if (i + usize::from(sub)) % 2 == 0 { 8u8 } else { 16 };
+                    let c = Cfg { mc: if sub & 1 != 0 { 2 } else { 6 }, tc: if sub & 2 != 0 { 2 } else { 13 }, cp: if sub & 4 != 0 { 2 } else { 9 }, full: i % 2 == 0, n: if st == 8 { 8 } else { 10 }, ssx: 0, ssy: 0 };
+                    let mut s = format!("\"ev\":\"total\",\"stage\":\"LinToYuv\",\"cfg\":{},\"st\":{st},\"input\":\"unit\",\"npx\":{},\"w\":{w},\"h\":{h},", c.json(), px.len());
+                    run_guarded(&mut s, |b| {
+                        macro_rules! go {
+                            ($t:ty) => {{
+                                let y = Yuv::<$t>::try_from((LinearRgb::new(px.to_vec(), w, h).map_err(|_| "ctor".to_string())?, c.yuv_config())).map_err(|e| crate::frames::err_name_conv(e).to_string())?;
+                                let (mx, rw) = yuv_proj(&y);
+                                let _ = write!(b, "\"maxcode\":{mx},\"rewrap\":\"{rw}\",\"wo\":{},\"ho\":{},", y.width(), y.height());
+                                let x = Xyb::try_from(&y).map_err(|e| format!("back:{}", crate::frames::err_name_conv(e)))?;
+                                let _ = write!(b, "\"back_len\":{},", x.data().len());
+                                Ok(())
+                            }};
+                        }
+                        if st == 8 {
+                            go!(u8)
+                        } else {
+                            go!(u16)
+                        }
+                    });
+                    out(s);
+                }
+            }
+        }
         _ => {}
     }
     std::panic::set_hook(prev);
@@ -352,6 +437,10 @@ pub fn batches() -> Vec<String> {
     v.push("encgeom".to_string());
     v.push("decgeom".to_string());
     v.push("chain".to_string());
+    for m in crate::util::MC_ALL.iter().filter(|&&x| x != 2) {
+        v.push(format!("triples:{m}"));
+    }
+    v.push("unspecsz".to_string());
     v
 }
 
